@@ -714,11 +714,15 @@ impl Actor for Probe {
     type Msg = String;
     type State = u32;
     type Timer = u8;
-    type Random = ();
+    type Random = u8;
     fn on_start(&self, id: Id, o: &mut Out<Self>) -> u32 {
         log(format!("start id={:?}", id));
         o.set_timer(7, Duration::from_millis(400)..Duration::from_millis(400));
+        for i in 0..200u8 { o.choose_random(format!("k{}", i), vec![i]); } // each fires once, after a random delay of 0..10 s
         100
+    }
+    fn on_random(&self, id: Id, state: &mut Cow<u32>, random: &u8, _o: &mut Out<Self>) {
+        log(format!("random id={:?} state={} random={}", id, **state, random));
     }
     fn on_msg(&self, id: Id, state: &mut Cow<u32>, src: Id, msg: String, _o: &mut Out<Self>) {
         log(format!("msg id={:?} state={} src={:?} msg={}", id, **state, src, msg));
@@ -757,6 +761,10 @@ fn verif_udp_runtime_contract() {
     if !(msgs[0].contains("msg=hello") && msgs[1].contains("msg=again")) { bad("on_msg carries the deserialized messages in order"); }
     if !msgs.iter().all(|m| m.contains(&want_src) && m.contains(&format!("id={:?}", id))) { bad("on_msg carries the Id derived from the sender's address and the actor's own id"); }
     if !(msgs[0].contains("state=100") && msgs[1].contains("state=101")) { bad("each handler receives the state left by the previous one"); }
+    let mut seen_random = std::collections::HashSet::new();
+    for l in log.iter().filter(|l| l.starts_with("random ")) {
+        if !seen_random.insert(l.clone()) { bad("a random choice made once is delivered at most once (it is consumed when it is delivered)"); }
+    }
     let tos: Vec<&String> = log.iter().filter(|l| l.starts_with("timeout ")).collect();
     if tos.len() != 1 { bad("the timer set in on_start fires exactly once (it is consumed when it fires)"); }
     let after: u128 = tos[0].rsplit("after_ms=").next().unwrap().parse().unwrap();
